@@ -1479,7 +1479,7 @@ def _clear_unused_initializers(values: Sequence[ir.Value]) -> None:
         if value is None or not value.is_initializer():
             continue
 
-        if (not value.uses()) and (not value.is_graph_output()):
+        if (not value.uses()) and (not value.is_graph_output()) and (not value.is_graph_input()):
             assert value.is_initializer()
             assert value.graph is not None
             assert value.name is not None
